@@ -66,6 +66,12 @@ func runC15(r *core.Run) (bool, string) {
 		"each Put is applied to a buffer of length 0..32 placed at offset 0..7 of a 64-byte array with random prior contents (capacity extends to the array end) and every byte of the array is compared with the hand-computed little-endian expectation; " +
 		"Get is compared with a value assembled by shifts and re-run after scrambling all bytes outside the frame; a case is distinct by (width, length, offset, value)")
 	r.Assume("Go runtime bounds checks and recover() behave as specified")
+	// the per-architecture children first: they run the same kind of cases in processes of their own, so a
+	// primitive that blocks for ever or kills the process (a lock left held by a refusal, say) ends a child
+	// with the runtime's report instead of taking the monitors of this process with it
+	if !c15Architectures(r) {
+		return true, ""
+	}
 	rng := core.NewRng(r.Seed, "c15")
 	const N = 64
 	lens := []int{0, 1, 2, 3, 4, 5, 7, 8, 9, 12, 16, 32}
